@@ -69,6 +69,7 @@ func implTypeEnvEquals(a, b *types.Env) bool {
 }
 
 func runC07(r *Run) {
+	c07SharedNodes(r)
 	g := &hostGen{r}
 	n := 700
 	if r.Tier == "thorough" {
@@ -261,6 +262,93 @@ func runC07(r *Run) {
 			r.Violate("mismatching-environment-accepted", what, "a name is missing or bound to another type, yet the expression ran")
 		case !conforms && len(tl.ev) > 0:
 			r.Violate("evaluated-on-mismatching-environment", what, fmt.Sprintf("%d host calls before the error", len(tl.ev)))
+		}
+	}
+}
+
+// c07SharedNodes: compile-time environments built by hand as raw *types.Env whose binding types reuse ONE *Type node in
+// several places (types are graphs); run-time environments agree at the first occurrence and differ at a later one.
+func c07SharedNodes(r *Run) {
+	point := types.Obj([]types.Field{{Name: "x", Val: types.Num}, {Name: "y", Val: types.Num}})
+	label := types.Obj([]types.Field{{Name: "x", Val: types.Str}, {Name: "y", Val: types.Str}})
+	// run-time values carry their OWN type nodes (as values converted from host data do), never the declared ones
+	freshPoint := func() *types.Type {
+		return types.Obj([]types.Field{{Name: "x", Val: types.Num}, {Name: "y", Val: types.Num}})
+	}
+	pv := func(a, b float64) *val.Val { return mkObj(freshPoint(), val.Num(a), val.Num(b)) }
+	lv := mkObj(label, val.Str("a"), val.Str("b"))
+	ln := types.List(types.Num)
+	type tcase struct {
+		name string
+		ty   *types.Type // declared (one shared node inside)
+		src  string
+		good *val.Val
+		bad  []*val.Val
+	}
+	seg := types.Obj([]types.Field{{Name: "from", Val: point}, {Name: "to", Val: point}})
+	segT := func(a, b *types.Type) *types.Type {
+		return types.Obj([]types.Field{{Name: "from", Val: a}, {Name: "to", Val: b}})
+	}
+	pair := types.Obj([]types.Field{{Name: "a", Val: ln}, {Name: "b", Val: ln}, {Name: "c", Val: ln}})
+	pairT := func(a, b, c *types.Type) *types.Type {
+		return types.Obj([]types.Field{{Name: "a", Val: a}, {Name: "b", Val: b}, {Name: "c", Val: c}})
+	}
+	ls := types.List(types.Str)
+	nl := func(xs ...float64) *val.Val {
+		vs := make([]*val.Val, len(xs))
+		for i, x := range xs {
+			vs[i] = val.Num(x)
+		}
+		return mkList(types.Num, vs...)
+	}
+	sl := mkList(types.Str, val.Str("s"))
+	lp := types.List(point)
+	nest := types.Obj([]types.Field{{Name: "ps", Val: lp}, {Name: "p", Val: point}, {Name: "qs", Val: lp}})
+	nestT := func(a, b, c *types.Type) *types.Type {
+		return types.Obj([]types.Field{{Name: "ps", Val: a}, {Name: "p", Val: b}, {Name: "qs", Val: c}})
+	}
+	cases := []tcase{
+		{"seg", seg, "tr(seg.from.x)", mkObj(segT(freshPoint(), freshPoint()), pv(1, 2), pv(3, 4)),
+			[]*val.Val{mkObj(segT(freshPoint(), label), pv(1, 2), lv), mkObj(segT(freshPoint(), ls), pv(1, 2), sl), mkObj(segT(label, freshPoint()), lv, pv(1, 2))}},
+		{"pair", pair, "tr(len(pair.a))", mkObj(pairT(types.List(types.Num), types.List(types.Num), types.List(types.Num)), nl(1), nl(2), nl(3)),
+			[]*val.Val{mkObj(pairT(types.List(types.Num), types.List(types.Num), ls), nl(1), nl(2), sl), mkObj(pairT(types.List(types.Num), ls, types.List(types.Num)), nl(1), sl, nl(3)),
+				mkObj(pairT(types.List(types.Num), freshPoint(), types.List(types.Num)), nl(1), pv(1, 2), nl(3))}},
+		{"nest", nest, "tr(len(nest.ps))", mkObj(nestT(types.List(freshPoint()), freshPoint(), types.List(freshPoint())), mkList(freshPoint(), pv(1, 2)), pv(3, 4), mkList(freshPoint())),
+			[]*val.Val{mkObj(nestT(types.List(freshPoint()), freshPoint(), types.List(label)), mkList(freshPoint(), pv(1, 2)), pv(3, 4), mkList(label, lv)),
+				mkObj(nestT(types.List(freshPoint()), label, types.List(freshPoint())), mkList(freshPoint()), lv, mkList(freshPoint()))}},
+	}
+	for _, c := range cases {
+		for _, be := range backends {
+			tl := &traceLog{}
+			te := types.NewEnv()
+			te.Put(c.name, c.ty)
+			var cl yae.Callable
+			var cerr error
+			if pan, _ := protect(func() { cl, cerr = newExpr(be, tl, true).Compile(c.src, te) }); pan || cerr != nil {
+				r.Violate("shared-node-environment-not-compilable", fmt.Sprintf("%q with %s : %s on %s", c.src, c.name, c.ty, be), fmt.Sprint(cerr))
+				continue
+			}
+			call := func(v *val.Val) (err error, n int) {
+				ve := val.NewEnv()
+				ve.Put(c.name, v)
+				tl.ev = nil
+				r.Mark(fmt.Sprintf("%q compiled against %s : %s (one shared node), called with a value of type %s on %s", c.src, c.name, c.ty, v.Type, be))
+				pan, msg := protect(func() { _, err = cl(ve) })
+				if pan {
+					err = fmt.Errorf("panic: %s", firstLine(msg))
+				}
+				return err, len(tl.ev)
+			}
+			r.Count("shared-node environment cases")
+			if err, _ := call(c.good); err != nil {
+				r.Violate("conforming-environment-rejected", fmt.Sprintf("%q, %s : %s with one shared node, value of the same type on %s", c.src, c.name, c.ty, be), firstLine(err.Error()))
+			}
+			for _, b := range c.bad {
+				if err, n := call(b); err == nil || n > 0 {
+					r.Violate("mismatching-environment-accepted", fmt.Sprintf("%q compiled against %s : %s (one shared node), called with %s : %s on %s", c.src, c.name, c.ty, c.name, b.Type, be),
+						fmt.Sprintf("err=%v, %d host calls", err, n))
+				}
+			}
 		}
 	}
 }
